@@ -405,6 +405,23 @@ func (g *declGen) leaf(fs []string, intField string) D {
 		// a date-time function that looks a time zone up in the process-wide location cache; some
 		// names are spelt in a case the zone database does not know
 		tz := g.t.Pick("decl.tz", "", "UTC", "America/New_York", "america/new_york", "Asia/Tokyo", "ASIA/TOKYO", "Europe/Berlin")
+		if which := g.t.Weighted("decl.dt.func", 3, 2, 2, 1); which > 0 {
+			// the functions that *parse* a date-time: text, layout, "the layout carries a zone" flag and
+			// the zones to read it in and to show it in are all arguments; every one of them counts
+			zone := func(l string) string { return g.t.Pick(l, "", "", "UTC", "America/New_York", "Asia/Tokyo") }
+			switch which {
+			case 1:
+				return cf("dateTimeLayoutToRFC3339", D{"const": g.t.Pick("decl.dt.value", "2021-02-08 10:00:00", "2021-12-31 23:59:59")},
+					D{"const": "2006-01-02 15:04:05"}, D{"const": g.t.Pick("decl.dt.layouttz", "false", "true")},
+					D{"const": zone("decl.dt.from")}, D{"const": zone("decl.dt.to")})
+			case 2:
+				return cf("dateTimeToRFC3339", D{"const": g.t.Pick("decl.dt.smart", "2021-02-08 10:00:00", "2021-02-08T10:00:00Z", "2021-02-08T10:00:00-05:00", "02/08/2021 10:00 PM")},
+					D{"const": zone("decl.dt.from")}, D{"const": zone("decl.dt.to")})
+			default:
+				return cf("dateTimeToEpoch", D{"const": g.t.Pick("decl.dt.smart", "2021-02-08 10:00:00", "2021-02-08T10:00:00Z", "2021-02-08T10:00:00-05:00")},
+					D{"const": zone("decl.dt.from")}, D{"const": g.t.Pick("decl.epochunit", "SECOND", "MILLISECOND")})
+			}
+		}
 		d := cf("epochToDateTimeRFC3339", D{"xpath": intField}, D{"const": g.t.Pick("decl.epochunit", "SECOND", "MILLISECOND")})
 		if tz != "" {
 			d["custom_func"].(D)["args"] = append(d["custom_func"].(D)["args"].([]interface{}), D{"const": tz})
